@@ -145,7 +145,8 @@ class C02(Prop):
                 continue
             R = unit[2]
             err = abs(lib - ev.exact_f[j])
-            floor = KAPPA * (R + dc.EPS * (abs(xv) * S1 + abs(ev.exact_f[j])))
+            sens = a.sensitivity(n)
+            floor = KAPPA * (R + dc.EPS * ((sens[1] if sens else abs(xv) * S1) + abs(ev.exact_f[j])))
             e = float(est[j])
             if not reach_ok:
                 ctx.count('honesty not asserted: reach > rho/4')
